@@ -168,21 +168,31 @@ class Ctx:
 
     # ------------------------------------------------------------------ go
     def gobuild(self, cmd, race=False):
-        os.makedirs(BUILD, exist_ok=True)
-        out = os.path.join(BUILD, cmd + ("-race" if race else ""))
+        """Build harness/cmd/<cmd> with -tags verif against REPO's current working tree.
+        With VERIF_REPO=<scratch copy> (mutation testing) a private copy of the harness is built
+        against that tree and the binary stays inside the run's tmp dir."""
         env = dict(os.environ)
         env.update(GOENV)
+        harness, build = HARNESS, BUILD
+        if os.path.realpath(REPO) != "/repo":
+            harness, build = self.path("harness"), self.path("build")
+            if not os.path.isdir(harness):
+                shutil.copytree(HARNESS, harness)
+                gm = open(os.path.join(harness, "go.mod")).read()
+                gm = gm.replace("=> /repo", "=> " + os.path.realpath(REPO))
+                open(os.path.join(harness, "go.mod"), "w").write(gm)
+        os.makedirs(build, exist_ok=True)
+        out = os.path.join(build, cmd + ("-race" if race else ""))
         argv = [GO, "build", "-tags", "verif"]
         if race:
             argv.append("-race")
         argv += ["-o", out, "./cmd/" + cmd]
         t = time.time()
-        # keep go.sum in sync with the repository's
         try:
-            shutil.copyfile(os.path.join(REPO, "go.sum"), os.path.join(HARNESS, "go.sum"))
+            shutil.copyfile(os.path.join(REPO, "go.sum"), os.path.join(harness, "go.sum"))
         except OSError:
             pass
-        p = subprocess.run(argv, cwd=HARNESS, env=env, stdout=subprocess.PIPE, stderr=subprocess.STDOUT, text=True)
+        p = subprocess.run(argv, cwd=harness, env=env, stdout=subprocess.PIPE, stderr=subprocess.STDOUT, text=True)
         if p.returncode != 0:
             raise Infra("go build %s failed:\n%s" % (cmd, p.stdout[-4000:]))
         self.log("built %s in %.1fs" % (cmd, time.time() - t))
@@ -324,8 +334,11 @@ class Ctx:
     # ------------------------------------------------------ findings
     def known_findings(self):
         if self._kf is None:
-            p = os.path.join(VERIF, "known_findings.json")
-            self._kf = json.load(open(p)) if os.path.exists(p) else []
+            self._kf = []
+            d = os.path.join(VERIF, "known_findings")
+            for f in sorted(os.listdir(d)) if os.path.isdir(d) else []:
+                if f.endswith(".json"):
+                    self._kf += json.load(open(os.path.join(d, f)))
         return self._kf
 
     def open_tags(self, prop=None):
